@@ -165,13 +165,22 @@ func (m *model) apply(o Op, st *stats) {
 				}
 			}
 		})
-		if o.LoseMod > 0 && o.Via != "rpc" {
+		if o.Via == "error" && o.Code != "" {
+			note(func(s *stats) { s.breakCode[o.Code] = true })
+		}
+		if o.LoseMod > 0 {
 			// the device comes back without some of its leaves: whole units, by rank in key order
+			// (whoever ended the stream: what the device reports on the new stream is its state)
 			ks := m.keys()
 			for i, k := range ks {
 				if i%o.LoseMod == o.LoseRem%o.LoseMod {
 					delete(m.units, k)
-					note(func(s *stats) { s.breakLoses = true })
+					note(func(s *stats) {
+						s.breakLoses = true
+						if o.Via == "rpc" || o.Via == "silence" {
+							s.collectorSideLoses = true
+						}
+					})
 				}
 			}
 		}
